@@ -264,6 +264,11 @@ func rewriteSched(pkg *packages.Package, f *ast.File) {
 		return &ast.SelectorExpr{X: ast.NewIdent("verifsched"), Sel: ast.NewIdent(name)}
 	}
 	astutil.Apply(f, func(c *astutil.Cursor) bool {
+		if _, inSelect := c.Parent().(*ast.CommClause); inSelect && c.Name() == "Comm" {
+			// the communication of a select case must stay a native channel operation (a polling select sees what is in
+			// the channel at that moment; the scheduler decides when the sender runs)
+			return false
+		}
 		switch n := c.Node().(type) {
 		case *ast.GoStmt:
 			// go f(args) -> verifsched.Go(func() { f(args) })
